@@ -66,7 +66,119 @@ class Violation(BaseException):
     pass
 
 
-class PrintWorld(object):
+class Renderer(object):
+    """Renders abstract motion ops into G-code text in the frame the unfiltered stream (printer U) is in."""
+
+    def __init__(self, cfg, g90e=False):
+        self.cfg = cfg
+        self.U = RefPrinter(g90e)
+        self.file_retracted = False
+        self.file_retract_len = 0.0
+
+    # ------------------------------------------------------------------------------------------------
+    # rendering of abstract motion ops in the file's current frame
+    # ------------------------------------------------------------------------------------------------
+    def _nd(self):
+        return 6 if self.U.unit != 1.0 else 4
+
+    def _axis_word(self, i, letter, target):
+        U = self.U
+        kz = self.cfg.get("keep_zeros", False)
+        if U.abs_xyz:
+            v = (target + U.shift[i] + U.home_off[i]) / U.unit
+        else:
+            v = (target - (U.pos[i] if U.pos[i] is not None else 0.0)) / U.unit
+        return letter + fmt(v, self._nd(), kz)
+
+    def _e_word(self, de):
+        U = self.U
+        if U.abs_e:
+            v = (U.E + de) / U.unit
+        else:
+            v = de / U.unit
+        return "E" + fmt(v, self._nd() + 1, self.cfg.get("keep_zeros", False))
+
+    def render(self, op):
+        """-> list of file lines for a motion-level op (may be empty if the op is not legal right now)."""
+        U = self.U
+        k = op["op"]
+        if k == "home":
+            axes = op.get("axes")
+            return ["G28" + ("".join(" " + a for a in axes) if axes else "")]
+        if k == "line":
+            return [op["text"]]
+        if k == "move":
+            parts = ["G%d" % op.get("g", 1)]
+            for i, l in enumerate("xyz"):
+                if op.get(l) is not None:
+                    parts.append(self._axis_word(i, l.upper(), op[l]))
+            if len(parts) == 1 and op.get("de") is None and op.get("f") is None:
+                return []
+            if op.get("de") is not None and not self.file_retracted:
+                parts.append(self._e_word(op["de"]))
+            if op.get("f") is not None:
+                parts.append("F" + fmt(op["f"] / U.unit, 3))
+            return [" ".join(parts)]
+        if k == "arc":
+            if not U.homed():
+                return []
+            ci, cj, sweep, cw = op["ci"], op["cj"], op["sweep"], op["cw"]
+            sx, sy = U.pos[0], U.pos[1]
+            cx, cy = sx + ci, sy + cj
+            a0 = math.atan2(-cj, -ci)
+            a1 = a0 - sweep if cw else a0 + sweep
+            r = math.hypot(ci, cj)
+            ex_, ey_ = cx + r * math.cos(a1), cy + r * math.sin(a1)
+            parts = ["G2" if cw else "G3", self._axis_word(0, "X", ex_), self._axis_word(1, "Y", ey_)]
+            if op.get("z") is not None:
+                parts.append(self._axis_word(2, "Z", op["z"]))
+            parts.append("I" + fmt(ci / U.unit, self._nd()))
+            parts.append("J" + fmt(cj / U.unit, self._nd()))
+            if op.get("de") is not None and not self.file_retracted:
+                parts.append(self._e_word(op["de"]))
+            if op.get("f") is not None:
+                parts.append("F" + fmt(op["f"] / U.unit, 3))
+            return [" ".join(parts)]
+        if k == "retract":
+            if self.file_retracted:
+                return []
+            self.file_retracted = True
+            if op.get("fw"):
+                self.file_retract_len = None
+                return ["G10" + (" " + op["params"] if op.get("params") else "")]
+            self.file_retract_len = op["len"]
+            line = "G1 " + self._e_word(-op["len"])
+            if op.get("f") is not None:
+                line += " F" + fmt(op["f"] / U.unit, 3)
+            return [line]
+        if k == "recover":
+            if not self.file_retracted:
+                return []
+            self.file_retracted = False
+            if self.file_retract_len is None:
+                return ["G11" + (" " + op["params"] if op.get("params") else "")]
+            line = "G1 " + self._e_word(self.file_retract_len)
+            if op.get("f") is not None:
+                line += " F" + fmt(op["f"] / U.unit, 3)
+            return [line]
+        if k == "mode":
+            return ["G91" if op["rel"] else "G90"]
+        if k == "units":
+            return ["G20" if op["inch"] else "G21"]
+        if k == "g92e":
+            return ["G92 E" + fmt(op["e"] / U.unit, self._nd() + 1)]
+        if k == "g92":
+            parts = ["G92"]
+            for l in "xyz":
+                if op.get(l) is not None:
+                    parts.append(l.upper() + fmt(op[l], self._nd()))
+            return [" ".join(parts)] if len(parts) > 1 else []
+        raise KeyError(k)
+
+
+
+
+class PrintWorld(Renderer):
     """Executes a schedule. `monitors` = set of property ids whose clauses are evaluated."""
 
     def __init__(self, cfg, monitors, reset_globals=True, encoding=None):
@@ -83,7 +195,7 @@ class PrintWorld(object):
         self.comm.before_call = self.before_call
         self.paused = False
         self.bus = SimBus(self.plugin, on_deliver=self.on_deliver)
-        self.U = RefPrinter(self.g90e)
+        Renderer.__init__(self, cfg, self.g90e)
         self.F = RefPrinter(self.g90e)
         self.life = LifecycleModel()
         self.at = AtModel(self._setting("atCommandActions", DEFAULT_AT_ACTIONS))
@@ -93,8 +205,6 @@ class PrintWorld(object):
         self.enabled = True           # model of the enable/disable switch
         self.episode = False          # EpisodeTracker
         self.guard_axes = set()       # HomedGuard
-        self.file_retracted = False   # renderer state: file is inside an E-only / firmware retract cycle
-        self.file_retract_len = 0.0
         self.regions = []             # currently defined regions (as a client sees them)
         self.max_dU = 0.0
         self.tol = 1e-7
@@ -114,6 +224,8 @@ class PrintWorld(object):
         self._snap_before = None
         self.sim_time = 0.0
         self._pre = None
+        self.op_records = {}          # per sender op: decision / episode / printer position (C08)
+        self.enc_applied = False
 
     # ------------------------------------------------------------------------------------------------
     # settings helpers
@@ -349,6 +461,13 @@ class PrintWorld(object):
                     if wc.split(None, 1)[1:] != cmd.split(None, 1)[1:]:
                         self.fail("C05", "params", "synthesised %r lost the parameters of %r" % (wc, cmd))
         # ---- per-call clauses
+        if src == "file":
+            rec = {"cmd": cmd, "fwd": bool(call.wire and call.wire[-1] == cmd),
+                   "excluding": bool(self.plugin.state.excluding)}
+            if (is_move or is_arc) and U.homed() and self.regions:
+                from ..models import depth as _depth
+                rec["margin"] = min(abs(_depth(r, U.pos[0], U.pos[1])) for r in self.regions)
+            self.op_records[self.op_index] = rec
         self.log.append(["call", src, cmd, call.wire, call.sent])
         self.trace.append((src, bool(call.wire and call.wire[-1] == cmd) if not is_at else None,
                            self.episode, opened, closed))
@@ -540,106 +659,6 @@ class PrintWorld(object):
         self.abs_states.add(key)
 
     # ------------------------------------------------------------------------------------------------
-    # rendering of abstract motion ops in the file's current frame
-    # ------------------------------------------------------------------------------------------------
-    def _nd(self):
-        return 6 if self.U.unit != 1.0 else 4
-
-    def _axis_word(self, i, letter, target):
-        U = self.U
-        kz = self.cfg.get("keep_zeros", False)
-        if U.abs_xyz:
-            v = (target + U.shift[i] + U.home_off[i]) / U.unit
-        else:
-            v = (target - (U.pos[i] if U.pos[i] is not None else 0.0)) / U.unit
-        return letter + fmt(v, self._nd(), kz)
-
-    def _e_word(self, de):
-        U = self.U
-        if U.abs_e:
-            v = (U.E + de) / U.unit
-        else:
-            v = de / U.unit
-        return "E" + fmt(v, self._nd() + 1, self.cfg.get("keep_zeros", False))
-
-    def render(self, op):
-        """-> list of file lines for a motion-level op (may be empty if the op is not legal right now)."""
-        U = self.U
-        k = op["op"]
-        if k == "home":
-            axes = op.get("axes")
-            return ["G28" + ("".join(" " + a for a in axes) if axes else "")]
-        if k == "line":
-            return [op["text"]]
-        if k == "move":
-            parts = ["G%d" % op.get("g", 1)]
-            for i, l in enumerate("xyz"):
-                if op.get(l) is not None:
-                    parts.append(self._axis_word(i, l.upper(), op[l]))
-            if len(parts) == 1 and op.get("de") is None and op.get("f") is None:
-                return []
-            if op.get("de") is not None and not self.file_retracted:
-                parts.append(self._e_word(op["de"]))
-            if op.get("f") is not None:
-                parts.append("F" + fmt(op["f"] / U.unit, 3))
-            return [" ".join(parts)]
-        if k == "arc":
-            if not U.homed():
-                return []
-            ci, cj, sweep, cw = op["ci"], op["cj"], op["sweep"], op["cw"]
-            sx, sy = U.pos[0], U.pos[1]
-            cx, cy = sx + ci, sy + cj
-            a0 = math.atan2(-cj, -ci)
-            a1 = a0 - sweep if cw else a0 + sweep
-            r = math.hypot(ci, cj)
-            ex_, ey_ = cx + r * math.cos(a1), cy + r * math.sin(a1)
-            parts = ["G2" if cw else "G3", self._axis_word(0, "X", ex_), self._axis_word(1, "Y", ey_)]
-            if op.get("z") is not None:
-                parts.append(self._axis_word(2, "Z", op["z"]))
-            parts.append("I" + fmt(ci / U.unit, self._nd()))
-            parts.append("J" + fmt(cj / U.unit, self._nd()))
-            if op.get("de") is not None and not self.file_retracted:
-                parts.append(self._e_word(op["de"]))
-            if op.get("f") is not None:
-                parts.append("F" + fmt(op["f"] / U.unit, 3))
-            return [" ".join(parts)]
-        if k == "retract":
-            if self.file_retracted:
-                return []
-            self.file_retracted = True
-            if op.get("fw"):
-                self.file_retract_len = None
-                return ["G10" + (" " + op["params"] if op.get("params") else "")]
-            self.file_retract_len = op["len"]
-            line = "G1 " + self._e_word(-op["len"])
-            if op.get("f") is not None:
-                line += " F" + fmt(op["f"] / U.unit, 3)
-            return [line]
-        if k == "recover":
-            if not self.file_retracted:
-                return []
-            self.file_retracted = False
-            if self.file_retract_len is None:
-                return ["G11" + (" " + op["params"] if op.get("params") else "")]
-            line = "G1 " + self._e_word(self.file_retract_len)
-            if op.get("f") is not None:
-                line += " F" + fmt(op["f"] / U.unit, 3)
-            return [line]
-        if k == "mode":
-            return ["G91" if op["rel"] else "G90"]
-        if k == "units":
-            return ["G20" if op["inch"] else "G21"]
-        if k == "g92e":
-            return ["G92 E" + fmt(op["e"] / U.unit, self._nd() + 1)]
-        if k == "g92":
-            parts = ["G92"]
-            for l in "xyz":
-                if op.get(l) is not None:
-                    parts.append(l.upper() + fmt(op[l], self._nd()))
-            return [" ".join(parts)] if len(parts) > 1 else []
-        raise KeyError(k)
-
-    # ------------------------------------------------------------------------------------------------
     # ops
     # ------------------------------------------------------------------------------------------------
     SENDER_OPS = ("home", "line", "move", "arc", "retract", "recover", "mode", "units", "g92e", "g92")
@@ -665,9 +684,17 @@ class PrintWorld(object):
             if op.get("needs_no_episode") and (self.episode or self.plugin.state.excluding):
                 self.stats["skipped_needs_no_episode"] += 1   # carve-out of C03/C08: not while an episode is open
                 return
+            enc = self.encoding
+            if enc and not self.enc_applied and self.op_index >= enc["from"] and self.U.homed() \
+                    and k not in ("home", "units", "mode"):
+                self._apply_encoding(enc)
             for line in self.render(op):
                 self.comm.send_file_line(line)
             self._after_pump()
+            rec = self.op_records.get(self.op_index)
+            if rec is not None and self.F.homed():
+                rec["pos"] = list(self.F.pos)
+                rec["p"] = self.F.p
         elif k == "pump":
             self.comm.pump()
             self._after_pump()
@@ -742,6 +769,21 @@ class PrintWorld(object):
         else:
             raise KeyError("unknown op %r" % (k,))
         seams.CLOCK.now = 1.7e9 + self.sim_time
+
+    def _apply_encoding(self, enc):
+        """C08: from here on the same tool path is expressed in another encoding."""
+        kind = enc["kind"]
+        if kind == "inch":
+            self.comm.send_file_line("G20")
+        elif kind == "rel":
+            self.comm.send_file_line("G91")
+        elif kind == "g92":
+            if self.episode or self.plugin.state.excluding:
+                return          # carve-out: not while an episode is open; retried at the next op
+            self.comm.send_file_line("G92" + "".join(" %s%s" % (l.upper(), fmt(enc[l], 2))
+                                                     for l in "xyz" if enc.get(l) is not None))
+        self.enc_applied = True
+        self.stats["probe:encoding_applied_" + kind] += 1
 
     def _after_pump(self):
         if self.resync_due and not self.comm.command_queue and not self.comm.job_queue:
@@ -871,3 +913,22 @@ class PrintWorld(object):
             self.bus.deliver_all()
         self.resync_due = False
         self.zneed = None
+
+
+def prerender(cfg, ops, g90e=False):
+    """Sender ops -> plain {"op": "line"} ops (text fixed at generation time), other ops unchanged."""
+    r = Renderer(cfg, g90e)
+    out = []
+    for op in ops:
+        if op["op"] in PrintWorld.SENDER_OPS:
+            for line in r.render(op):
+                r.U.run(line)
+                o = {"op": "line", "text": line}
+                if "grp" in op:
+                    o["grp"] = op["grp"]
+                out.append(o)
+        else:
+            if op["op"] == "print_start":
+                r.file_retracted = False
+            out.append(op)
+    return out
